@@ -15,6 +15,10 @@ theorem total_narrative (ml mx : Nat) (s : Text) : Narr.parse ml mx s ≠ .panic
 theorem total_codes (s : Text) :
     F12.parse s ≠ .panic ∧ F23B.parse s ≠ .panic ∧ F71A.parse s ≠ .panic ∧ F30.parse s ≠ .panic := no_panic_codes s
 
+/-- the party fields option A (52A–58A), C (52C, 56C, 57C) and D (52D, 54D–58D) -/
+theorem total_party_fields (s : Text) : OptA.parse s ≠ .panic ∧ OptC.parse s ≠ .panic ∧ OptD.parse s ≠ .panic :=
+  ⟨optA_no_panic s, optC_no_panic s, optD_no_panic s⟩
+
 /-- Byte slicing is the only primitive that can panic, and it cannot on ASCII text within bounds. -/
 theorem slice_total_on_ascii (t : Text) (a b : Nat) (h : isAsciiT t = true) (hab : a ≤ b) (hb : b ≤ t.length) :
     bslice t a b ≠ .panic := by
